@@ -473,6 +473,9 @@ func tokenize(s string) []string {
 func (s *Solver) fallback(extra *Term, vars []*Term, wantModel bool) (SatResult, map[string]uint64, int) {
 	var sb strings.Builder
 	for _, l := range s.log {
+		if l == "(push 1)" {
+			continue // scopes are irrelevant for a one-shot query
+		}
 		sb.WriteString(l)
 		sb.WriteByte('\n')
 	}
